@@ -11,3 +11,9 @@ func Verif_C01_W3_FlatPut() { verifScenarioFlatPut() }
 func Verif_C01_W3_FlatGet() { verifScenarioFlatGet() }
 func Verif_C01_W3_HierPut() { verifScenarioHierPut() }
 func Verif_C01_W3_HierGet() { verifScenarioHierGet() }
+
+// Verif_C01_W4_FlatComposite: a composite read returns exactly the designated slice,
+// and the index entries it creates for the slices point at those slices of the
+// parent - also when the block list rotates during the read's own refresh
+// allocation or while the lock is released for slicing.
+func Verif_C01_W4_FlatComposite() { verifScenarioFlatComposite() }
